@@ -27,6 +27,42 @@ def corpus(name: str = "ansi") -> list[str]:
     return _CORPUS[name]
 
 
+RULE_CASES_DIR = "/repo/test/fixtures/rules/std_rule_cases"
+_RULE_CASES: list[dict] = []
+_RULE_CASES_LOADED = False
+
+
+def rule_cases() -> list[dict]:
+    """SQL snippets of sqlfluff's own rule test cases (when readable): each is sensitive to a
+    rule, often to a dialect. -> [{rule, name, sql, dialect}] in a fixed (sorted) order."""
+    global _RULE_CASES_LOADED
+    if _RULE_CASES_LOADED:
+        return _RULE_CASES
+    _RULE_CASES_LOADED = True
+    try:
+        import yaml
+
+        loader = getattr(yaml, "CSafeLoader", yaml.SafeLoader)
+        for fn in sorted(os.listdir(RULE_CASES_DIR)):
+            if not fn.endswith(".yml"):
+                continue
+            with open(os.path.join(RULE_CASES_DIR, fn), encoding="utf-8") as f:
+                doc = yaml.load(f, Loader=loader)
+            if not isinstance(doc, dict):
+                continue
+            for name, case in doc.items():
+                if not isinstance(case, dict):
+                    continue
+                dia = ((case.get("configs") or {}).get("core") or {}).get("dialect")
+                for key in ("fail_str", "pass_str"):
+                    sql = case.get(key)
+                    if isinstance(sql, str) and 0 < len(sql) <= 1200 and "\r" not in sql:
+                        _RULE_CASES.append({"rule": str(doc.get("rule")), "name": "%s:%s" % (name, key), "sql": sql, "dialect": dia})
+    except Exception:
+        del _RULE_CASES[:]
+    return _RULE_CASES
+
+
 KEYWORDS = ["SELECT", "FROM", "WHERE", "AND", "AS", "ON", "GROUP BY", "ORDER BY", "INNER JOIN", "LEFT JOIN"]
 
 # ---------------------------------------------------------------------------
@@ -219,6 +255,17 @@ def make_body(rng: Rng, kind: str, templater: str = "jinja") -> tuple[str, dict]
     elif kind == "jinja_fixable":
         add_fixable(rng.randint(1, 2))
         text = jinja_ok(rng, text)
+    elif kind == "rulecase":
+        cases = rule_cases()
+        if cases:
+            c = rng.choice(cases)
+            text = c["sql"] if c["sql"].endswith("\n") or rng.chance(0.3) else c["sql"] + "\n"
+            meta["case"] = c["name"]
+            if c["dialect"] and c["dialect"] != "ansi":
+                meta["inline"] = "-- sqlfluff:dialect:" + c["dialect"]
+                text = meta["inline"] + "\n" + text
+        else:
+            add_fixable(rng.randint(1, 2))
     elif kind == "cte_multi":
         # several CTEs whose closing brackets each break the same layout rule
         n = rng.randint(2, 4)
@@ -350,6 +397,7 @@ def gen_fix_world(rng: Rng, feats: Optional[dict] = None) -> dict:
         root_core.update(limits.get("root", {}))
     files["proj/.sqlfluff"] = {"b64": b64(ini(cfg_sections)), "mode": 0o644}
     nested: dict[str, dict] = {}
+    f.setdefault("bait", 0.0)
     if f["nested_cfg"]:
         for d in dirs[1:]:
             if rng.chance(0.5):
@@ -388,6 +436,36 @@ def gen_fix_world(rng: Rng, feats: Optional[dict] = None) -> dict:
         m.update({"encoding": enc, "newline": nl, "dir": d, "chars": len(text), "bytes": len(data)})
         files[rel] = {"b64": b64(data), "mode": rng.choice(f["modes"])}
         meta[rel] = m
+    bait = None
+    if f["bait"] and rng.chance(f["bait"]):
+        # "latch bait": two files whose violations depend on a per-file fact that is NOT part of
+        # the rule configuration (the dialect; core ignore_templated_areas) while sharing the
+        # rule configuration: anything that carries rule/linter state from one file to the next
+        # shows up as a difference between "among others" and "alone".
+        free = [x for x in names[n:]] or ["y", "z"]
+        bait = rng.choice(["struct", "templated"]) if templater == "jinja" else "struct"
+        if bait == "struct":
+            cfg_sections["sqlfluff:rules:references.consistent"] = {"force_enable": "True"}
+            files["proj/.sqlfluff"] = {"b64": b64(ini(cfg_sections)), "mode": 0o644}
+            sd = rng.choice(["bigquery", "bigquery", "hive", "redshift", "athena"])
+            pol = "-- sqlfluff:dialect:%s\nSELECT\n    t.payload.user_id,\n    t.payload.country\nFROM t\n" % sd
+            vic = rng.choice(["SELECT\n    a,\n    foo.b\nFROM tbl\n", "SELECT my_tbl.bar, baz FROM my_tbl\n", "SELECT\n    tbl.a,\n    b\nFROM tbl\nWHERE c > 1\n"])
+            bodies = [(pol, {"kind": "bait_polluter", "inj": [], "inline": "-- sqlfluff:dialect:" + sd, "inline_line": 1, "dir": ""}),
+                      (vic, {"kind": "bait_victim", "inj": [], "dir": ""})]
+        else:
+            bd = "tpl"
+            dirs.append(bd)
+            nested[bd] = {"ignore_templated_areas": "False"}
+            files["proj/%s/.sqlfluff" % bd] = {"b64": b64(ini({"sqlfluff": nested[bd]})), "mode": 0o644}
+            body = "{{ \"select\" }} a\nFROM tbl\nWHERE a > 1\n"
+            bodies = [(body, {"kind": "bait_polluter", "inj": [], "dir": bd}), (body, {"kind": "bait_victim", "inj": [], "dir": ""})]
+        rng.shuffle(free)
+        for (text, m), nm in zip(bodies, free):
+            rel = "proj/" + (m["dir"] + "/" if m["dir"] else "") + nm + ".sql"
+            data = text.encode("utf-8")
+            m.update({"encoding": "utf-8", "newline": "lf", "chars": len(text), "bytes": len(data)})
+            files[rel] = {"b64": b64(data), "mode": 0o644}
+            meta[rel] = m
     if f["ignore_file"] and rng.chance(0.3):
         sqls = sorted(meta)
         victim = rng.choice(sqls)
@@ -406,6 +484,8 @@ def gen_fix_world(rng: Rng, feats: Optional[dict] = None) -> dict:
             "nested": nested,
             "limits": limits,
             "root_core": root_core,
+            "sections": cfg_sections,
+            "bait": bait,
         },
         "suffix": rng.choice(f["suffix"]),
     }
